@@ -10,6 +10,14 @@
 //!        SAME BUFFER; must equal the result of `rcb(B, iterB)` on a fresh buffer (no dependence on history)
 //!   `pos2 <w> <h> <i>` → `pos x y`      `idx2 <w> <h> <x> <y>` → `idx i`      `len2 <w> <h>` → `len n`
 //!   `pos3 <w> <h> <d> <i>` → `pos x y z` `idx3 <w> <h> <d> <x> <y> <z>` → `idx i` `len3 <w> <h> <d>` → `len n`
+//!   `rcbs2 <T> <e> <w> <h> <iter> <n> <tok…>` / `rcbs3 …`: `f64` weights `k * 2^e` (tok = integer `k`, or `-0` for
+//!        the weight -0.0) → `ids <id…>`; also compared with the +0.0 variant and, in the normal range, with `e = 0`
+//!   `meds <T> <e> <total_k> <n> <tok…>` → `med <position> <left_weight / 2^e>` (`weighted_median_f64`)
+//!   `rcbt2 <T> <type> <w> <h> <iter> <n> <w_0> …` / `rcbt3 …`: the same integers as `&[type]`
+//!        (i32 u32 u64 usize u8 i16 u16 isize f32 i64arr f64box) → `ids <id…>`; compared with the `i64` / `f64` call
+//!   `ctx2 <kind> <T> <mode> <w> <h> <iter> <copies> <n> <w_0> …` / `ctx3 …`: calling context, kind = `global`
+//!        (global pool, built with T threads), `join` / `scope` (from inside a rayon task of a T-pool), `many`
+//!        (`copies` concurrent calls on rotations of the weights, each compared with its sequential result) → `ids <id…>`
 //! other outcomes: `panic file:line: message`, `hang` (watchdog), `bad-op`.
 //!
 //! Oracle (from the ids and the weights alone): the ids describe a recursive bisection
@@ -73,9 +81,132 @@ enum Op {
     Rcb { t: usize, float: bool, dims: Vec<usize>, iter: usize, plen: usize, ws: Vec<i64> },
     Med { t: usize, float: bool, total: i64, ws: Vec<i64> },
     Reuse { t: usize, float: bool, dims: Vec<usize>, iter_a: usize, iter_b: usize, wa: Vec<i64>, wb: Vec<i64> },
+    Scaled { t: usize, e: i32, dims: Vec<usize>, iter: usize, toks: Vec<Tok> },
+    MedScaled { t: usize, e: i32, total_k: i64, toks: Vec<Tok> },
+    Typed { t: usize, ty: String, dims: Vec<usize>, iter: usize, ws: Vec<i64> },
+    Context { kind: String, t: usize, float: bool, dims: Vec<usize>, iter: usize, copies: usize, ws: Vec<i64> },
     Pos { dims: Vec<usize>, i: usize },
     Idx { dims: Vec<usize>, pos: Vec<usize> },
     Len { dims: Vec<usize> },
+}
+
+/// A weight token of the scaled ops: `k` (weight `k * 2^e`) or `-0` (weight -0.0).
+#[derive(Clone, Copy, Debug, PartialEq)]
+enum Tok {
+    K(i64),
+    NegZero,
+}
+
+impl Tok {
+    fn k(self) -> i64 {
+        match self {
+            Tok::K(k) => k,
+            Tok::NegZero => 0,
+        }
+    }
+}
+
+fn parse_toks(it: &mut std::str::SplitWhitespace<'_>, n: usize) -> Option<Vec<Tok>> {
+    let mut v = Vec::with_capacity(n.min(1 << 16));
+    for _ in 0..n {
+        let t = it.next()?;
+        v.push(if t == "-0" {
+            Tok::NegZero
+        } else {
+            let k: i64 = t.parse().ok()?;
+            if !(0..(1i64 << 53)).contains(&k) {
+                return None;
+            }
+            Tok::K(k)
+        });
+    }
+    Some(v)
+}
+
+fn join_toks(toks: &[Tok]) -> String {
+    let v: Vec<String> = toks
+        .iter()
+        .map(|t| match t {
+            Tok::K(k) => k.to_string(),
+            Tok::NegZero => "-0".to_string(),
+        })
+        .collect();
+    v.join(" ")
+}
+
+/// `k * 2^e` built from its bit pattern (exact); `None` if not representable.
+fn ldexp_exact(k: u64, e: i32) -> Option<f64> {
+    if k == 0 {
+        return Some(0.0);
+    }
+    if k >= 1 << 53 {
+        return None;
+    }
+    let hb = 63 - k.leading_zeros() as i32;
+    let ex = e + hb;
+    if ex > 1023 {
+        return None;
+    }
+    if ex >= -1022 {
+        let mant = k << (52 - hb);
+        Some(f64::from_bits((((ex + 1023) as u64) << 52) | (mant & ((1u64 << 52) - 1))))
+    } else {
+        let sh = e + 1074;
+        if sh < 0 {
+            return None;
+        }
+        Some(f64::from_bits(k << sh))
+    }
+}
+
+/// `x / 2^e` as an exact integer (`x` finite, non-negative), if it is one and fits.
+fn to_units(x: f64, e: i32) -> Option<i128> {
+    if !(x.is_finite()) || x.is_sign_negative() && x != 0.0 {
+        return None;
+    }
+    if x == 0.0 {
+        return Some(0);
+    }
+    let bits = x.to_bits();
+    let be = ((bits >> 52) & 0x7ff) as i32;
+    let frac = bits & ((1u64 << 52) - 1);
+    let (m, q) = if be == 0 { (frac, -1074) } else { (frac | (1u64 << 52), be - 1075) };
+    let d = q - e;
+    if d >= 0 {
+        if d > 60 {
+            return None;
+        }
+        Some((m as i128) << d)
+    } else {
+        let d = (-d) as u32;
+        if d >= 64 || m & ((1u64 << d) - 1) != 0 {
+            return None;
+        }
+        Some((m >> d) as i128)
+    }
+}
+
+fn tok_weight(t: Tok, e: i32) -> Option<f64> {
+    match t {
+        Tok::NegZero => Some(-0.0),
+        Tok::K(k) => ldexp_exact(k as u64, e),
+    }
+}
+
+const TYPES: [&str; 11] = ["i32", "u32", "u64", "usize", "u8", "i16", "u16", "isize", "f32", "i64arr", "f64box"];
+
+/// largest total the weight type can hold exactly (and, for f32, for which the f32 thresholds
+/// order integer prefixes exactly like the f64 thresholds do)
+fn type_limit(ty: &str) -> i64 {
+    match ty {
+        "u8" => u8::MAX as i64,
+        "i16" => i16::MAX as i64,
+        "u16" => u16::MAX as i64,
+        "i32" => i32::MAX as i64,
+        "u32" => u32::MAX as i64,
+        "f32" => 100_000,
+        _ => 1 << 50,
+    }
 }
 
 fn mode_str(float: bool) -> &'static str {
@@ -167,6 +298,82 @@ fn parse_op(op: &str) -> Option<Op> {
             }
             Op::Reuse { t, float, dims, iter_a, iter_b, wa, wb }
         }
+        "rcbs2" | "rcbs3" => {
+            let d = if name == "rcbs2" { 2 } else { 3 };
+            let t: usize = it.next()?.parse().ok()?;
+            let e: i32 = it.next()?.parse().ok()?;
+            let dims: Vec<usize> = take(&mut it, d)?;
+            let rest: Vec<usize> = take(&mut it, 2)?;
+            let (iter, n) = (rest[0], rest[1]);
+            let toks = parse_toks(&mut it, n)?;
+            let sum: i128 = toks.iter().map(|t| t.k() as i128).sum();
+            if dims.iter().any(|&s| s == 0) || t == 0 || t > 64 || dims.iter().product::<usize>() != n {
+                return None;
+            }
+            // every weight and the total are exactly representable and finite
+            if sum >= 1 << 53 || ldexp_exact(sum as u64, e).is_none() || toks.iter().any(|&t| tok_weight(t, e).is_none()) {
+                return None;
+            }
+            Op::Scaled { t, e, dims, iter, toks }
+        }
+        "meds" => {
+            let t: usize = it.next()?.parse().ok()?;
+            let e: i32 = it.next()?.parse().ok()?;
+            let total_k: i64 = it.next()?.parse().ok()?;
+            let n: usize = it.next()?.parse().ok()?;
+            let toks = parse_toks(&mut it, n)?;
+            let sum: i128 = toks.iter().map(|t| t.k() as i128).sum();
+            if t == 0 || t > 64 || !(0..(1i64 << 53)).contains(&total_k) || sum >= 1 << 53 {
+                return None;
+            }
+            if ldexp_exact(total_k as u64, e).is_none()
+                || ldexp_exact(sum as u64, e).is_none()
+                || toks.iter().any(|&t| tok_weight(t, e).is_none())
+            {
+                return None;
+            }
+            Op::MedScaled { t, e, total_k, toks }
+        }
+        "rcbt2" | "rcbt3" => {
+            let d = if name == "rcbt2" { 2 } else { 3 };
+            let t: usize = it.next()?.parse().ok()?;
+            let ty = it.next()?.to_string();
+            let dims: Vec<usize> = take(&mut it, d)?;
+            let rest: Vec<usize> = take(&mut it, 2)?;
+            let (iter, n) = (rest[0], rest[1]);
+            let ws: Vec<i64> = take(&mut it, n)?;
+            let sum: i128 = ws.iter().map(|&w| w as i128).sum();
+            if dims.iter().any(|&s| s == 0) || t == 0 || t > 64 || dims.iter().product::<usize>() != n {
+                return None;
+            }
+            if !TYPES.contains(&ty.as_str()) || ws.iter().any(|&w| w < 0) || sum > type_limit(&ty) as i128 {
+                return None;
+            }
+            if ty == "i64arr" && !matches!(n, 4 | 6 | 8 | 9) {
+                return None;
+            }
+            Op::Typed { t, ty, dims, iter, ws }
+        }
+        "ctx2" | "ctx3" => {
+            let d = if name == "ctx2" { 2 } else { 3 };
+            let kind = it.next()?.to_string();
+            let t: usize = it.next()?.parse().ok()?;
+            let float = parse_mode(it.next()?)?;
+            let dims: Vec<usize> = take(&mut it, d)?;
+            let rest: Vec<usize> = take(&mut it, 3)?;
+            let (iter, copies, n) = (rest[0], rest[1], rest[2]);
+            let ws: Vec<i64> = take(&mut it, n)?;
+            if dims.iter().any(|&s| s == 0) || t == 0 || t > 64 || dims.iter().product::<usize>() != n {
+                return None;
+            }
+            if !["global", "join", "scope", "many"].contains(&kind.as_str()) || copies == 0 || copies > 64 {
+                return None;
+            }
+            if ws.iter().any(|&w| w < 0) {
+                return None;
+            }
+            Op::Context { kind, t, float, dims, iter, copies, ws }
+        }
         "med" => {
             let t: usize = it.next()?.parse().ok()?;
             let float = parse_mode(it.next()?)?;
@@ -239,9 +446,17 @@ struct NodeStats {
 /// side, `unit` = 1 for integer weights (the "plus one unit"), 0 for `f64` weights.
 /// `Ok(true)` = within 1 % of half, `Ok(false)` = only the adjacency clause holds.
 fn balance_clause(slabs: &[i128], k: usize, unit: i128) -> Result<bool, String> {
+    balance_clause_rel(slabs, k, unit, None)
+}
+
+/// `rel_shift = Some(s)`: the weights are exact integers in units of a power of two of `f64`
+/// weights of arbitrary magnitude; the code's two thresholds carry a relative rounding error of
+/// about 2^-52, so the 1 % clause is evaluated (in exact integers) with the extra slack `W / 2^s`.
+fn balance_clause_rel(slabs: &[i128], k: usize, unit: i128, rel_shift: Option<u32>) -> Result<bool, String> {
     let w: i128 = slabs.iter().sum();
     let l: i128 = slabs[..k].iter().sum();
-    if 200 * l >= 99 * w - 200 * unit && 200 * l <= 101 * w + 200 * unit {
+    let rel = rel_shift.map(|s| 200 * (w >> s)).unwrap_or(0);
+    if 200 * l >= 99 * w - 200 * unit - rel && 200 * l <= 101 * w + 200 * unit + rel {
         return Ok(true);
     }
     // the cut is adjacent to the slab that contains the half-weight mark: slab `v`
@@ -270,6 +485,7 @@ struct BoxCheck<'a> {
     ids: &'a [usize],
     ws: &'a [i64],
     unit: i128,
+    rel_shift: Option<u32>,
     stats: NodeStats,
 }
 
@@ -346,7 +562,7 @@ impl BoxCheck<'_> {
                 ),
             ));
         }
-        match balance_clause(&slabs, k, self.unit) {
+        match balance_clause_rel(&slabs, k, self.unit, self.rel_shift) {
             Ok(true) => self.stats.within += 1,
             Ok(false) => self.stats.adjacent_only += 1,
             Err(m) => {
@@ -378,6 +594,18 @@ fn rcb_oracle(
     ids: &[usize],
     ws: &[i64],
 ) -> Result<NodeStats, (&'static str, String)> {
+    rcb_oracle_ext(dims, iter, if float { 0 } else { 1 }, None, ids, ws)
+}
+
+/// The same with the slack of the 1 % clause given explicitly (`unit` absolute, `rel_shift` relative).
+fn rcb_oracle_ext(
+    dims: &[usize],
+    iter: usize,
+    unit: i128,
+    rel_shift: Option<u32>,
+    ids: &[usize],
+    ws: &[i64],
+) -> Result<NodeStats, (&'static str, String)> {
     if iter < usize::BITS as usize {
         if let Some((i, id)) = ids.iter().enumerate().find(|(_, &id)| id >> iter != 0) {
             return Err(("id-out-of-range", format!("cell {} has id {} >= 2^{}", i, id, iter)));
@@ -391,7 +619,8 @@ fn rcb_oracle(
         iter,
         ids,
         ws,
-        unit: if float { 0 } else { 1 },
+        unit,
+        rel_shift,
         stats: NodeStats::default(),
     };
     // `Grid::rcb` starts with coordinate 1
@@ -413,6 +642,10 @@ pub fn run_op(ctx: &mut Ctx, op: &str) {
     match parsed {
         Op::Rcb { t, float, dims, iter, plen, ws } => run_rcb(ctx, op, t, float, dims, iter, plen, ws),
         Op::Med { t, float, total, ws } => run_med(ctx, op, t, float, total, ws),
+        Op::Scaled { t, e, dims, iter, toks } => run_scaled(ctx, op, t, e, dims, iter, toks),
+        Op::MedScaled { t, e, total_k, toks } => run_med_scaled(ctx, op, t, e, total_k, toks),
+        Op::Typed { t, ty, dims, iter, ws } => run_typed(ctx, op, t, ty, dims, iter, ws),
+        Op::Context { kind, t, float, dims, iter, copies, ws } => run_context(ctx, op, kind, t, float, dims, iter, copies, ws),
         Op::Reuse { t, float, dims, iter_a, iter_b, wa, wb } => run_reuse(ctx, op, t, float, dims, iter_a, iter_b, wa, wb),
         Op::Pos { dims, i } => {
             let glen: u128 = dims.iter().map(|&s| s as u128).product();
@@ -585,6 +818,359 @@ fn run_rcb(ctx: &mut Ctx, op: &str, t: usize, float: bool, dims: Vec<usize>, ite
         }
     };
     let idx = ctx.record(op.to_string(), out, nontrivial);
+    if let Some((sig, what)) = verdict {
+        ctx.fail(idx, sig, what);
+    }
+}
+
+/// `Grid::rcb` for any admitted weight type.
+fn call_typed<W>(d: &[usize], partition: &mut [usize], ws: &[W], iter: usize)
+where
+    W: Send + Sync + PartialOrd + coupe::num_traits::Num + std::iter::Sum + coupe::num_traits::AsPrimitive<f64>,
+    f64: coupe::num_traits::AsPrimitive<W>,
+{
+    if d.len() == 2 {
+        grid2(d).rcb(partition, ws, iter)
+    } else {
+        grid3(d).rcb(partition, ws, iter)
+    }
+}
+
+/// slack of the oracle's 1 % clause for `f64` weights `k * 2^e`: one unit where the values
+/// live on (or near) the subnormal grid, where the thresholds are rounded to multiples of 2^-1074
+fn scaled_unit(e: i32) -> i128 {
+    if e < -1022 + 53 {
+        1
+    } else {
+        0
+    }
+}
+
+const REL_SHIFT: u32 = 45;
+
+/// SPECIAL VALUES: `f64` weights `k * 2^e` (subnormal, smallest normal, near overflow) and -0.0.
+fn run_scaled(ctx: &mut Ctx, op: &str, t: usize, e: i32, dims: Vec<usize>, iter: usize, toks: Vec<Tok>) {
+    let glen: usize = dims.iter().product();
+    let ws: Vec<f64> = toks.iter().map(|&t| tok_weight(t, e).expect("checked")).collect();
+    let ks: Vec<i64> = toks.iter().map(|t| t.k()).collect();
+    let has_negzero = toks.iter().any(|&t| t == Tok::NegZero);
+    let total_k: i64 = ks.iter().sum();
+    let total_ex = if total_k > 0 { e + 63 - (total_k as u64).leading_zeros() as i32 } else { 0 };
+    // scale invariance must hold exactly when no intermediate value can be subnormal or overflow
+    let normal_range = e >= -1020 && total_ex <= 1022;
+    let (d, w) = (dims.clone(), ws.clone());
+    let k2 = ks.clone();
+    let res = in_pool(t, move || {
+        let mut p = vec![usize::MAX; glen];
+        call_typed(&d, &mut p, &w, iter);
+        let poszero = if has_negzero {
+            let w0: Vec<f64> = w.iter().map(|&x| if x == 0.0 { 0.0 } else { x }).collect();
+            let mut q = vec![usize::MAX; glen];
+            call_typed(&d, &mut q, &w0, iter);
+            Some(q)
+        } else {
+            None
+        };
+        let unscaled = if normal_range && e != 0 {
+            let w1: Vec<f64> = k2.iter().map(|&k| k as f64).collect();
+            let mut q = vec![usize::MAX; glen];
+            call_typed(&d, &mut q, &w1, iter);
+            Some(q)
+        } else {
+            None
+        };
+        (p, poszero, unscaled)
+    });
+    let mut verdict: Option<(&str, String)> = None;
+    let out = match res {
+        Caught::Ok((ids, poszero, unscaled)) => {
+            ctx.count("out_ids");
+            if let Some(q) = poszero {
+                ctx.count("special:negzero_vs_poszero_compared");
+                if let Some(i) = (0..glen).find(|&i| q[i] != ids[i]) {
+                    verdict = Some(("negzero-dependent@grid_rcb", format!("cell {}: id {} with -0.0 weights, {} with +0.0", i, ids[i], q[i])));
+                }
+            }
+            if let Some(q) = unscaled {
+                ctx.count("special:scale_invariance_compared");
+                if let Some(i) = (0..glen).find(|&i| q[i] != ids[i]) {
+                    verdict = Some(("scale-dependent@grid_rcb", format!("cell {}: id {} at scale 2^{}, {} at scale 1", i, ids[i], e, q[i])));
+                }
+            } else if e != 0 {
+                ctx.count("special:outside_normal_range_oracle_and_model_only");
+            }
+            if verdict.is_none() {
+                match rcb_oracle_ext(&dims, iter, scaled_unit(e), Some(REL_SHIFT), &ids, &ks) {
+                    Ok(_) => ctx.count("oracle_rcb_checked"),
+                    Err((sig, what)) => verdict = Some((sig, what)),
+                }
+            }
+            format!("ids {}", join(&ids))
+        }
+        Caught::Panic(m) => {
+            ctx.count("out_panic");
+            verdict = Some(("panic", format!("{} [{}]", m, panic_sig(&m))));
+            format!("panic {}", m)
+        }
+        Caught::Hang => {
+            ctx.count("hang");
+            verdict = Some(("hang", format!("no return within {} s on a pool of {} thread(s)", WATCHDOG_SECS, t)));
+            "hang".into()
+        }
+    };
+    let idx = ctx.record(op.to_string(), out, glen >= 2 && iter >= 1);
+    if let Some((sig, what)) = verdict {
+        ctx.fail(idx, sig, what);
+    }
+}
+
+fn run_med_scaled(ctx: &mut Ctx, op: &str, t: usize, e: i32, total_k: i64, toks: Vec<Tok>) {
+    let n = toks.len();
+    let ws: Vec<f64> = toks.iter().map(|&t| tok_weight(t, e).expect("checked")).collect();
+    let ks: Vec<i128> = toks.iter().map(|t| t.k() as i128).collect();
+    let total = ldexp_exact(total_k as u64, e).expect("checked");
+    let has_negzero = toks.iter().any(|&t| t == Tok::NegZero);
+    let w = ws.clone();
+    let res = in_pool(t, move || {
+        let r = coupe::verif_cartesian::weighted_median_f64(&w, total);
+        let r0 = if has_negzero {
+            let w0: Vec<f64> = w.iter().map(|&x| if x == 0.0 { 0.0 } else { x }).collect();
+            Some(coupe::verif_cartesian::weighted_median_f64(&w0, total))
+        } else {
+            None
+        };
+        (r, r0)
+    });
+    let sum: i128 = ks.iter().sum();
+    let plain = sum == total_k as i128;
+    let mut verdict: Option<(&str, String)> = None;
+    let out = match res {
+        Caught::Ok(((p, l), r0)) => {
+            ctx.count("out_med");
+            if let Some((p0, l0)) = r0 {
+                ctx.count("special:negzero_vs_poszero_compared");
+                if p0 != p || l0.to_bits() != l.to_bits() && !(l0 == 0.0 && l == 0.0) {
+                    verdict = Some(("negzero-dependent@grid_rcb", format!("weighted_median ({}, {:e}) with -0.0, ({}, {:e}) with +0.0", p, l, p0, l0)));
+                }
+            }
+            match to_units(l, e) {
+                Some(lk) if p <= n => {
+                    let pre: i128 = ks[..p].iter().sum();
+                    if pre != lk {
+                        verdict = Some(("median-prefix", format!("left_weight {} units but the {} first weights sum to {} units", lk, p, pre)));
+                    } else if plain && verdict.is_none() {
+                        ctx.count("oracle_med_checked");
+                        if p >= n.max(1) {
+                            verdict = Some(("median-position", format!("position {} with {} weights", p, n)));
+                        } else if let Err(m) = balance_clause_rel(&ks, p, scaled_unit(e), Some(REL_SHIFT)) {
+                            verdict = Some(("unbalanced", format!("weighted_median position {}: {}", p, m)));
+                        }
+                    }
+                    format!("med {} {}", p, lk)
+                }
+                _ => {
+                    verdict = Some(("median-prefix", format!("position {} of {}, left_weight {:e} is not a multiple of 2^{}", p, n, l, e)));
+                    format!("med {} nonint:{:x}", p, l.to_bits())
+                }
+            }
+        }
+        Caught::Panic(m) => {
+            ctx.count("out_panic");
+            verdict = Some(("panic", format!("{} [{}]", m, panic_sig(&m))));
+            format!("panic {}", m)
+        }
+        Caught::Hang => {
+            ctx.count("hang");
+            verdict = Some(("hang", format!("no return within {} s on a pool of {} thread(s)", WATCHDOG_SECS, t)));
+            "hang".into()
+        }
+    };
+    let idx = ctx.record(op.to_string(), out, plain && n >= 2);
+    if let Some((sig, what)) = verdict {
+        ctx.fail(idx, sig, what);
+    }
+}
+
+/// PLUMBING: the same integers through every admitted weight type; integer types must give the
+/// `i64` result, `f32` (totals up to 100 000) the `f64` result, arrays / boxed slices the slice result.
+fn run_typed(ctx: &mut Ctx, op: &str, t: usize, ty: String, dims: Vec<usize>, iter: usize, ws: Vec<i64>) {
+    let glen: usize = dims.iter().product();
+    let float = ty == "f32" || ty == "f64box";
+    let (d, w, ty2) = (dims.clone(), ws.clone(), ty.clone());
+    let res = in_pool(t, move || {
+        let mut p = vec![usize::MAX; glen];
+        macro_rules! as_type {
+            ($t:ty) => {{
+                let v: Vec<$t> = w.iter().map(|&x| x as $t).collect();
+                call_typed(&d, &mut p, &v, iter)
+            }};
+        }
+        match ty2.as_str() {
+            "i32" => as_type!(i32),
+            "u32" => as_type!(u32),
+            "u64" => as_type!(u64),
+            "usize" => as_type!(usize),
+            "u8" => as_type!(u8),
+            "i16" => as_type!(i16),
+            "u16" => as_type!(u16),
+            "isize" => as_type!(isize),
+            "f32" => as_type!(f32),
+            "f64box" => {
+                let b: Box<[f64]> = w.iter().map(|&x| x as f64).collect();
+                call_typed(&d, &mut p, &b, iter)
+            }
+            _ => match w.len() {
+                // "i64arr": a reference to an array
+                4 => call_typed(&d, &mut p, &<[i64; 4]>::try_from(&w[..]).unwrap(), iter),
+                6 => call_typed(&d, &mut p, &<[i64; 6]>::try_from(&w[..]).unwrap(), iter),
+                8 => call_typed(&d, &mut p, &<[i64; 8]>::try_from(&w[..]).unwrap(), iter),
+                _ => call_typed(&d, &mut p, &<[i64; 9]>::try_from(&w[..]).unwrap(), iter),
+            },
+        }
+        let mut q = vec![usize::MAX; glen];
+        call_rcb(&d, float, &mut q, &w, iter);
+        (p, q)
+    });
+    let mut verdict: Option<(&str, String)> = None;
+    let out = match res {
+        Caught::Ok((ids, reference)) => {
+            ctx.count("out_ids");
+            if let Some(i) = (0..glen).find(|&i| ids[i] != reference[i]) {
+                verdict = Some((
+                    "input-type-dependent@grid_rcb",
+                    format!("cell {}: id {} with {} weights, {} with {} weights", i, ids[i], ty, reference[i], if float { "f64" } else { "i64" }),
+                ));
+            } else {
+                match rcb_oracle(&dims, iter, float, &ids, &ws) {
+                    Ok(_) => ctx.count("oracle_rcb_checked"),
+                    Err((sig, what)) => verdict = Some((sig, what)),
+                }
+            }
+            format!("ids {}", join(&ids))
+        }
+        Caught::Panic(m) => {
+            ctx.count("out_panic");
+            verdict = Some(("panic", format!("{} [{}]", m, panic_sig(&m))));
+            format!("panic {}", m)
+        }
+        Caught::Hang => {
+            ctx.count("hang");
+            verdict = Some(("hang", format!("no return within {} s on a pool of {} thread(s)", WATCHDOG_SECS, t)));
+            "hang".into()
+        }
+    };
+    let idx = ctx.record(op.to_string(), out, glen >= 2 && iter >= 1);
+    if let Some((sig, what)) = verdict {
+        ctx.fail(idx, sig, what);
+    }
+}
+
+/// Threads of the global rayon pool: this process builds it itself (once) so that the count
+/// does not depend on the machine; if something initialised it before, the observed count.
+const GLOBAL_THREADS: usize = 5;
+
+fn global_threads() -> usize {
+    static ONCE: std::sync::OnceLock<usize> = std::sync::OnceLock::new();
+    *ONCE.get_or_init(|| {
+        let _ = coupe::rayon::ThreadPoolBuilder::new().num_threads(GLOBAL_THREADS).build_global();
+        coupe::rayon::current_num_threads()
+    })
+}
+
+/// CONTEXT: the same call on the global pool, from inside a rayon task, and many at once.
+#[allow(clippy::too_many_arguments)]
+fn run_context(ctx: &mut Ctx, op: &str, kind: String, t: usize, float: bool, dims: Vec<usize>, iter: usize, copies: usize, ws: Vec<i64>) {
+    let glen: usize = dims.iter().product();
+    if kind == "global" && global_threads() != t {
+        // the op was written on a machine / in a process whose global pool has another size
+        ctx.count("context:global_pool_size_differs");
+        ctx.record(op.to_string(), "bad-op".into(), false);
+        return;
+    }
+    let (d, w, kd) = (dims.clone(), ws.clone(), kind.clone());
+    let body = move || -> (Vec<usize>, Option<String>) {
+        use coupe::rayon::prelude::*;
+        match kd.as_str() {
+            "join" => {
+                let (p, _) = coupe::rayon::join(
+                    || {
+                        let mut p = vec![usize::MAX; glen];
+                        call_rcb(&d, float, &mut p, &w, iter);
+                        p
+                    },
+                    || std::hint::black_box(0u64),
+                );
+                (p, None)
+            }
+            "scope" => {
+                let mut p = vec![usize::MAX; glen];
+                coupe::rayon::scope(|s| {
+                    s.spawn(|_| call_rcb(&d, float, &mut p, &w, iter));
+                });
+                (p, None)
+            }
+            "many" => {
+                let inputs: Vec<Vec<i64>> = (0..copies)
+                    .map(|j| {
+                        let mut v = w.clone();
+                        v.rotate_left(j % glen.max(1));
+                        v
+                    })
+                    .collect();
+                let conc: Vec<Vec<usize>> = inputs
+                    .par_iter()
+                    .map(|v| {
+                        let mut p = vec![usize::MAX; glen];
+                        call_rcb(&d, float, &mut p, v, iter);
+                        p
+                    })
+                    .collect();
+                let mut diff = None;
+                for (j, v) in inputs.iter().enumerate() {
+                    let mut p = vec![usize::MAX; glen];
+                    call_rcb(&d, float, &mut p, v, iter);
+                    if p != conc[j] && diff.is_none() {
+                        let i = (0..glen).find(|&i| p[i] != conc[j][i]).unwrap();
+                        diff = Some(format!("concurrent call {} of {}: cell {} got id {}, sequentially {}", j, copies, i, conc[j][i], p[i]));
+                    }
+                }
+                (conc.into_iter().next().unwrap(), diff)
+            }
+            _ => {
+                // "global": called from a thread outside any pool
+                let mut p = vec![usize::MAX; glen];
+                call_rcb(&d, float, &mut p, &w, iter);
+                (p, None)
+            }
+        }
+    };
+    let res = if kind == "global" { catch_timeout(WATCHDOG_SECS, body) } else { in_pool(t, body) };
+    let mut verdict: Option<(&str, String)> = None;
+    let out = match res {
+        Caught::Ok((ids, diff)) => {
+            ctx.count("out_ids");
+            if let Some(what) = diff {
+                verdict = Some(("context-dependent@grid_rcb", what));
+            } else {
+                match rcb_oracle(&dims, iter, float, &ids, &ws) {
+                    Ok(_) => ctx.count("oracle_rcb_checked"),
+                    Err((sig, what)) => verdict = Some((sig, what)),
+                }
+            }
+            format!("ids {}", join(&ids))
+        }
+        Caught::Panic(m) => {
+            ctx.count("out_panic");
+            verdict = Some(("panic", format!("{} [{}]", m, panic_sig(&m))));
+            format!("panic {}", m)
+        }
+        Caught::Hang => {
+            ctx.count("hang");
+            verdict = Some(("hang", format!("no return within {} s ({} context, {} thread(s))", WATCHDOG_SECS, kind, t)));
+            "hang".into()
+        }
+    };
+    let idx = ctx.record(op.to_string(), out, glen >= 2 && iter >= 1);
     if let Some((sig, what)) = verdict {
         ctx.fail(idx, sig, what);
     }
@@ -1242,6 +1828,358 @@ fn large_stream(ctx: &mut Ctx) {
     ));
 }
 
+// ------------------------------------------------------------------ special values / plumbing / context
+
+fn small_dims(rng: &mut Rng) -> Vec<usize> {
+    if rng.chance(1, 3) {
+        vec![1 + rng.usize(3), 1 + rng.usize(3), 1 + rng.usize(4)]
+    } else {
+        match rng.usize(5) {
+            0 => vec![1, 2 + rng.usize(9)],
+            1 => vec![2 + rng.usize(9), 1],
+            _ => vec![1 + rng.usize(6), 1 + rng.usize(6)],
+        }
+    }
+}
+
+fn fmt_scaled(t: usize, e: i32, dims: &[usize], iter: usize, toks: &[Tok]) -> String {
+    format!("rcbs{} {} {} {} {} {} {}", dims.len(), t, e, join(dims), iter, toks.len(), join_toks(toks))
+}
+
+fn fmt_med_scaled(t: usize, e: i32, total_k: i64, toks: &[Tok]) -> String {
+    let mut s = format!("meds {} {} {} {}", t, e, total_k, toks.len());
+    if !toks.is_empty() {
+        s.push(' ');
+        s.push_str(&join_toks(toks));
+    }
+    s
+}
+
+/// `n` weight tokens of one of the special-value classes; returns the class name and the exponent.
+fn special_tokens(rng: &mut Rng, n: usize, class: usize) -> (&'static str, i32, Vec<Tok>) {
+    // the bit pattern of the subnormal 1e-310 is its multiple of 2^-1074
+    let k_1e310 = 1e-310f64.to_bits() as i64;
+    let (name, e, mut ks): (&'static str, i32, Vec<i64>) = match class {
+        0 => ("multiples_of_5e-324", -1074, (0..n).map(|_| rng.range(0, 3)).collect()),
+        1 => ("multiples_of_5e-324_wide", -1074, (0..n).map(|_| rng.range(0, 1000)).collect()),
+        2 => ("every_cell_1e-310", -1074, vec![k_1e310; n]),
+        3 => ("cells_about_1e-310", -1074, (0..n).map(|_| k_1e310 + rng.range(-1000, 1000)).collect()),
+        // subnormal cells, total around the smallest normal 2^-1022 = 2^52 units
+        4 => {
+            let per = (1i64 << 52) / n as i64;
+            ("subnormal_cells_total_about_min_normal", -1074, (0..n).map(|_| per + rng.range(-3, 3)).collect())
+        }
+        // small multiples of the smallest normal: the thresholds total/2*0.99 fall below it
+        5 => ("multiples_of_min_normal", -1022, (0..n).map(|_| rng.range(0, 3)).collect()),
+        6 => ("just_above_min_normal", -1021 + rng.range(0, 3) as i32, (0..n).map(|_| rng.range(0, 9)).collect()),
+        // a few cells around 5e307..6e307: the total is finite, total * 1.01 is not
+        7 => {
+            let mut v = vec![0i64; n];
+            let big = (8_930_000_000_000_000i64 + rng.range(0, 60_000_000_000_000)) / 3;
+            for j in 0..3.min(n) {
+                v[(j * 7 + rng.usize(n)) % n] += big;
+            }
+            for x in v.iter_mut() {
+                if *x == 0 {
+                    *x = rng.range(0, 2);
+                }
+            }
+            ("cells_about_5e307_total_times_1.01_overflows", 971, v)
+        }
+        // one cell f64::MAX / 2 = (2^53 - 1) * 2^970, the others zero
+        8 => {
+            let mut v = vec![0i64; n];
+            v[rng.usize(n)] = (1i64 << 53) - 1;
+            ("one_cell_f64_MAX_half", 970, v)
+        }
+        // one cell 2^1023 and small ones next to it
+        9 => {
+            let mut v: Vec<i64> = (0..n).map(|_| rng.range(0, 5)).collect();
+            v[rng.usize(n)] = 1i64 << 52;
+            ("one_cell_2^1023", 971, v)
+        }
+        10 => ("normal_range_tiny_scale", -1000 + rng.range(0, 400) as i32, (0..n).map(|_| rng.range(0, 1000)).collect()),
+        11 => ("normal_range_huge_scale", 600 + rng.range(0, 360) as i32, (0..n).map(|_| rng.range(0, 1000)).collect()),
+        _ => ("plain_scale_with_negzero", 0, (0..n).map(|_| rng.range(0, 2) * rng.range(0, 9)).collect()),
+    };
+    // keep the total exactly representable and finite
+    while ks.iter().map(|&k| k as i128).sum::<i128>() >= (1i128 << 53) {
+        let j = rng.usize(n);
+        ks[j] /= 2;
+    }
+    let mut toks: Vec<Tok> = ks.into_iter().map(Tok::K).collect();
+    // signed zeros: an odd or an even number of the zero cells become -0.0
+    let zeros: Vec<usize> = (0..n).filter(|&i| toks[i] == Tok::K(0)).collect();
+    if !zeros.is_empty() && (class >= 12 || rng.chance(1, 2)) {
+        let want = 1 + rng.usize(zeros.len());
+        for &i in zeros.iter().take(want) {
+            toks[i] = Tok::NegZero;
+        }
+    }
+    (name, e, toks)
+}
+
+fn special_stream(ctx: &mut Ctx) {
+    // items 1 and 2: signed zeros, subnormal and extreme magnitudes
+    let n_cases = ctx.budget(160, 4000);
+    for r in 0..n_cases {
+        if too_many_hangs(ctx) {
+            return;
+        }
+        let class = r % 13;
+        let t = *ctx.rng.pick(&THREADS);
+        if r % 3 == 2 {
+            let cap = if ctx.rng.chance(1, 4) { 70 } else { 12 };
+            let n = 1 + ctx.rng.usize(cap);
+            let (name, e, toks) = special_tokens(&mut ctx.rng, n, class);
+            let total_k: i64 = toks.iter().map(|t| t.k()).sum();
+            ctx.count(&format!("special:{}", name));
+            if toks.iter().any(|&t| t == Tok::NegZero) {
+                ctx.count("special:negzero");
+            }
+            run_op(ctx, &fmt_med_scaled(t, e, total_k, &toks));
+        } else {
+            let dims = if class == 2 && r % 2 == 0 { vec![8, 8] } else { small_dims(&mut ctx.rng) };
+            let n: usize = dims.iter().product();
+            let (name, e, toks) = special_tokens(&mut ctx.rng, n, class);
+            let iter = ctx.rng.usize(5);
+            ctx.count(&format!("special:{}", name));
+            let nz = toks.iter().filter(|&&t| t == Tok::NegZero).count();
+            if nz > 0 {
+                ctx.count(if nz % 2 == 1 { "special:negzero_odd_count" } else { "special:negzero_even_count" });
+            }
+            run_op(ctx, &fmt_scaled(t, e, &dims, iter, &toks));
+        }
+    }
+    // all cells -0.0 (the total itself is a zero of either sign)
+    for &t in &[1usize, 3, 16] {
+        ctx.count("special:all_cells_negzero");
+        run_op(ctx, &fmt_scaled(t, 0, &[3, 2], 2, &[Tok::NegZero; 6]));
+        run_op(ctx, &fmt_scaled(t, -1074, &[2, 2, 2], 3, &[Tok::NegZero; 8]));
+        run_op(ctx, &fmt_med_scaled(t, 0, 0, &[Tok::NegZero; 5]));
+    }
+    // item 4: the same integers through every admitted weight type
+    let n_cases = ctx.budget(130, 3000);
+    for r in 0..n_cases {
+        if too_many_hangs(ctx) {
+            return;
+        }
+        let ty = TYPES[r % TYPES.len()];
+        let dims: Vec<usize> = if ty == "i64arr" {
+            match ctx.rng.usize(7) {
+                0 => vec![2, 2],
+                1 => vec![3, 2],
+                2 => vec![2, 2, 2],
+                3 => vec![3, 3],
+                4 => vec![4, 2],
+                5 => vec![1, 6],
+                _ => vec![2, 1, 2],
+            }
+        } else if ctx.rng.chance(1, 3) {
+            vec![1 + ctx.rng.usize(4), 1 + ctx.rng.usize(4), 1 + ctx.rng.usize(4)]
+        } else {
+            vec![1 + ctx.rng.usize(8), 1 + ctx.rng.usize(8)]
+        };
+        let n: usize = dims.iter().product();
+        let limit = type_limit(ty);
+        let hi = (limit / n as i64).clamp(1, 1000);
+        let mut ws: Vec<i64> = match ctx.rng.usize(4) {
+            0 => vec![1.min(hi); n],
+            1 => (0..n).map(|_| if ctx.rng.chance(2, 3) { 0 } else { ctx.rng.range(0, hi) }).collect(),
+            _ => (0..n).map(|_| ctx.rng.range(0, hi)).collect(),
+        };
+        if ctx.rng.chance(1, 5) && limit > 255 {
+            // one dominant cell, as large as the type allows together with the others
+            let rest: i64 = ws.iter().sum();
+            let k = ctx.rng.usize(n);
+            ws[k] += (limit - rest).min(1 << 40) / 2;
+        }
+        let iter = ctx.rng.usize(6);
+        let t = *ctx.rng.pick(&THREADS);
+        ctx.count(&format!("plumbing:{}", ty));
+        run_op(ctx, &format!("rcbt{} {} {} {} {} {} {}", dims.len(), t, ty, join(&dims), iter, n, join(&ws)));
+    }
+    // item 5: calling context
+    let gt = global_threads();
+    let reps = ctx.budget(6, 60);
+    for r in 0..reps {
+        if too_many_hangs(ctx) {
+            return;
+        }
+        for kind in ["global", "join", "scope", "many", "many"] {
+            let big = kind == "many" && r % 3 == 0;
+            let dims: Vec<usize> = if big {
+                vec![60 + ctx.rng.usize(60), 60 + ctx.rng.usize(60)]
+            } else if ctx.rng.chance(1, 3) {
+                vec![side(&mut ctx.rng, 6), side(&mut ctx.rng, 6), side(&mut ctx.rng, 6)]
+            } else {
+                vec![side(&mut ctx.rng, 20), side(&mut ctx.rng, 20)]
+            };
+            let shape = ctx.rng.usize(SHAPES.len());
+            let ws = gen_weights(&mut ctx.rng, &dims, shape);
+            let iter = ctx.rng.usize(7);
+            let float = ctx.rng.chance(1, 3);
+            let (t, copies) = match kind {
+                "global" => (gt, 1),
+                "many" => (*ctx.rng.pick(&[4usize, 16]), *ctx.rng.pick(&[8usize, 16, 32])),
+                _ => (*ctx.rng.pick(&THREADS), 1),
+            };
+            ctx.count(&format!("context:{}", kind));
+            if kind == "many" {
+                ctx.count(&format!("context:many_T{}_x{}", t, copies));
+            }
+            run_op(
+                ctx,
+                &format!("ctx{} {} {} {} {} {} {} {} {}", dims.len(), kind, t, mode_str(float), join(&dims), iter, copies, ws.len(), join(&ws)),
+            );
+        }
+    }
+    ctx.notes.push(format!(
+        "special/plumbing/context stream: f64 weights k*2^e with e from -1074 (multiples of 5e-324, every cell 1e-310, \
+         totals about the smallest normal) to 971 (cells about 5e307 with total*1.01 overflowing, one cell f64::MAX/2, 2^1023), \
+         odd and even numbers of -0.0 cells, compared with the +0.0 run, with the unscaled run where every intermediate is \
+         normal, with the model (thresholds evaluated at the real magnitude) and checked by the oracle in exact integers of \
+         the unit 2^e; weight types {:?} against the i64 / f64 call; calls on the global pool ({} threads), from inside \
+         join / scope tasks, and 8..32 concurrent calls on pools of 4 and 16 threads against their sequential results",
+        TYPES, gt
+    ));
+}
+
+/// Item 6, in-process part: the first calls of the run are instantiations in a random order
+/// (2-D / 3-D, i64 / f64 / other types, median hooks, global pool).
+fn first_calls_shuffled(ctx: &mut Ctx) {
+    let mut ops = cold_candidates(ctx);
+    ctx.rng.shuffle(&mut ops);
+    for op in ops {
+        ctx.count("context:first_calls_shuffled");
+        run_op(ctx, &op);
+    }
+}
+
+fn cold_candidates(ctx: &mut Ctx) -> Vec<String> {
+    let gt = global_threads();
+    let w6: Vec<i64> = (0..6).map(|_| ctx.rng.range(0, 9)).collect();
+    let w8: Vec<i64> = (0..8).map(|_| ctx.rng.range(0, 9)).collect();
+    let w12: Vec<i64> = (0..12).map(|_| ctx.rng.range(0, 50)).collect();
+    let t = *ctx.rng.pick(&THREADS);
+    vec![
+        rcb_op(t, false, &[3, 2], 2, &w6),
+        rcb_op(t, true, &[3, 2], 2, &w6),
+        rcb_op(t, false, &[2, 2, 2], 3, &w8),
+        rcb_op(t, true, &[2, 2, 2], 3, &w8),
+        format!("rcbt2 {} u32 4 3 3 12 {}", t, join(&w12)),
+        format!("rcbt3 {} f32 2 2 3 3 12 {}", t, join(&w12)),
+        format!("rcbt2 {} u8 2 3 2 6 {}", t, join(&w6)),
+        fmt_scaled(t, -1074, &[3, 2], 2, &w6.iter().map(|&k| Tok::K(k)).collect::<Vec<_>>()),
+        fmt_med(t, false, w12.iter().sum(), &w12),
+        fmt_med(t, true, w12.iter().sum(), &w12),
+        format!("ctx2 global {} i 4 3 3 1 12 {}", gt, join(&w12)),
+        format!("ctx3 many 4 f 2 2 2 3 8 8 {}", join(&w8)),
+    ]
+}
+
+/// Item 6, cold-process part: a short sequence of different instantiations is run in a CHILD
+/// process (this binary, `replay`), where its first call really is the first call of the
+/// process; every output must equal the output of the same op in this (warm) process.
+fn cold_sequences(ctx: &mut Ctx) {
+    let Ok(exe) = std::env::current_exe() else {
+        ctx.count("context:cold_process_unavailable");
+        return;
+    };
+    for s in 0..ctx.budget(3, 10) {
+        if too_many_hangs(ctx) {
+            return;
+        }
+        let mut ops = cold_candidates(ctx);
+        ctx.rng.shuffle(&mut ops);
+        ops.truncate(6);
+        let mut warm: Vec<(usize, String)> = vec![];
+        for op in &ops {
+            let before = ctx.ops.len();
+            run_op(ctx, op);
+            if ctx.ops.len() == before + 1 {
+                warm.push((before, ctx.impl_out[before].clone()));
+            }
+        }
+        if warm.len() != ops.len() {
+            return;
+        }
+        let dir = std::env::temp_dir().join(format!("c10_cold_{}_{}_{}", std::process::id(), ctx.seed, s));
+        let _ = std::fs::create_dir_all(&dir);
+        let file = dir.join("ops.case");
+        let text: String = ops.iter().map(|o| format!("C10 {}\n", o)).collect();
+        if let Err(err) = std::fs::write(&file, text) {
+            ctx.count("context:cold_process_unavailable");
+            ctx.notes.push(format!("cold child process not run: cannot write {:?}: {}", file, err));
+            return;
+        }
+        let child = std::process::Command::new(&exe)
+            .args(["replay", "C10", "--ops"])
+            .arg(&file)
+            .arg("--out")
+            .arg(&dir)
+            .stdout(std::process::Stdio::null())
+            .stderr(std::process::Stdio::null())
+            .spawn();
+        let mut child = match child {
+            Ok(c) => c,
+            Err(err) => {
+                ctx.count("context:cold_process_unavailable");
+                ctx.notes.push(format!("cold child process not run: cannot spawn {:?}: {}", exe, err));
+                let _ = std::fs::remove_dir_all(&dir);
+                return;
+            }
+        };
+        let t0 = std::time::Instant::now();
+        let mut done = false;
+        while t0.elapsed() < std::time::Duration::from_secs(180) {
+            match child.try_wait() {
+                Ok(Some(_)) => {
+                    done = true;
+                    break;
+                }
+                Ok(None) => std::thread::sleep(std::time::Duration::from_millis(10)),
+                Err(_) => break,
+            }
+        }
+        if !done {
+            let _ = child.kill();
+            let _ = child.wait();
+            ctx.count("context:cold_process_timeout");
+            ctx.fail(warm[0].0, "hang", "the cold child process running this sequence did not finish within 180 s".into());
+            let _ = std::fs::remove_dir_all(&dir);
+            continue;
+        }
+        let cold = std::fs::read_to_string(dir.join("impl.txt")).unwrap_or_default();
+        let cold: Vec<&str> = cold.lines().collect();
+        ctx.count("context:cold_process_sequence");
+        if cold.len() != warm.len() {
+            ctx.fail(
+                warm[0].0,
+                "process-state-dependent@grid_rcb",
+                format!("the cold process produced {} outputs for {} ops", cold.len(), warm.len()),
+            );
+        } else {
+            for (j, (idx, w)) in warm.iter().enumerate() {
+                if cold[j] != w {
+                    ctx.fail(
+                        *idx,
+                        "process-state-dependent@grid_rcb",
+                        format!(
+                            "op {} of a cold process (after {:?}) gives `{}`, in this process `{}`",
+                            j,
+                            &ops[..j],
+                            &cold[j][..cold[j].len().min(120)],
+                            &w[..w.len().min(120)]
+                        ),
+                    );
+                }
+            }
+        }
+        let _ = std::fs::remove_dir_all(&dir);
+    }
+}
+
 fn random_med(ctx: &mut Ctx) {
     let cases = ctx.budget(1500, 40000);
     for _ in 0..cases {
@@ -1393,11 +2331,15 @@ fn malformed(ctx: &mut Ctx) {
 }
 
 pub fn generate(ctx: &mut Ctx) {
+    first_calls_shuffled(ctx);
     fixed_cases(ctx);
+    // while the process is still small (spawning a child from a multi-GB parent can fail)
+    cold_sequences(ctx);
     if !too_many_hangs(ctx) {
         exhaustive(ctx);
     }
     large_stream(ctx);
+    special_stream(ctx);
     random_rcb(ctx);
     random_med(ctx);
     index_maps(ctx);
